@@ -16,5 +16,4 @@ CONSTANTS Stoppers = {"s1", "s2"}
  MaxPolls = 1
  PollOnce = FALSE
 INVARIANTS C10_start_only_inactive C10_active_after_start C10_after_stops C10_writing_stopped C10_failed_start_clean C10_nopanic C10_no_stuck_stop C11_no_stuck_request
-PROPERTIES C10_stop_returns C11_answered C11_no_wedge
 CHECK_DEADLOCK FALSE
